@@ -363,7 +363,7 @@ PROPS = {
                        "queue -> planned -> published (flush / enact do not affect order or lock timing). Trusted: Lean kernel, "
                        "harness oracles (logical forest, commit-return-order map), hook fixes/hook-c05.diff."),
         "lean": ["Pdb.Props.C11"],
-        "harness": [{"cmd": "c11", "quick": 15, "thorough": 60, "model": False, "timeout": 3000}],
+        "harness": [{"cmd": "c11", "quick": 30, "thorough": 120, "model": False, "timeout": 3000}],
         "rule": ("kind = seed % 5: 0 F4 exactly (1..3 later writers, 3 value sizes), 1 locked-tree stability (DereferenceTree A and "
                  "InsertTree B sharing A's subtrees in either order, 0..2 unrelated trees, pipeline stepped under the held guard, "
                  "entry counts), 2 insert+dereference transaction overtaken, 3 threaded reader / writer / pruner with background "
